@@ -259,8 +259,9 @@ def write_evidence(
         "wall_s": round(wall_s, 2),
         "violations": int(violations),
     }
-    d = VERIF / "evidence"
-    d.mkdir(exist_ok=True)
+    # runs against mutated copies of /repo (tools/mutant.sh, tools/eval_seed.sh) must not overwrite the evidence of the real tree
+    d = Path(os.environ["HV_EVIDENCE_DIR"]) if os.environ.get("HV_EVIDENCE_DIR") else VERIF / "evidence"
+    d.mkdir(parents=True, exist_ok=True)
     p = d / f"{prop}.json"
     p.write_text(json.dumps(ev, indent=1, sort_keys=True) + "\n")
     return p
